@@ -149,8 +149,14 @@ def case_transfer(case):
         E.solver.RegularGridProlongator = RealRGP
     build_s = time.time()-t0
     if c.stats['forks']:
-        return [ob("harness: unexpected fork outside explore()", 'error',
-                   group=grp, note=f"{c.stats['forks']} forks")]
+        # the transfer operators branched on symbolic grid values (they are
+        # branch-free on the pinned tree).  Only the first feasible branch
+        # was executed: the obligations below are still evaluated under that
+        # path condition (a counterexample on a feasible path is real), but
+        # the case cannot be reported as held.
+        obs.append(ob("harness: the code branched on symbolic grid values; "
+                      "only one path was executed", 'error', group=grp,
+                      note=f"{c.stats['forks']} forks"))
     named = dict(h=h)
 
     def cexd(kind, m):
